@@ -127,6 +127,9 @@ class Actor:
                 self.s.DoGlobalIteration(2)
             elif op == "S":
                 self.sol = self.s.Solve()
+            elif op == "L":
+                self.s.DoLocalRefinement(4)
+                self.sol = self.s.GetResults()
             elif op == "r":
                 self.s.GetResults()
         self.prog += 1
@@ -212,7 +215,11 @@ def merge_task(task):
         actors = [Actor(sp, env=env) for sp in specs]
         bad = None
         for step, w in enumerate(order):
-            actors[w].do(ops[actors[w].prog])
+            try:
+                actors[w].do(ops[actors[w].prog])
+            except Exception as e:      # alone the same operation list runs through (the reference exists)
+                bad = (step, w, f"operation {ops[actors[w].prog]!r} raised {type(e).__name__}: {e}")
+                break
             for j, a in enumerate(actors):
                 if a.prog and a.state() != refs[j][a.prog]:
                     bad = (step, j, describe_diff(a.state(), refs[j][a.prog]))
@@ -243,7 +250,10 @@ def replay_merge(rec):
     env = {}
     actors = [Actor(sp, env=env) for sp in specs]
     for step, w in enumerate(order):
-        actors[w].do(ops[actors[w].prog])
+        try:
+            actors[w].do(ops[actors[w].prog])
+        except Exception as e:
+            return [f"solver {w}: operation {ops[actors[w].prog]!r} raised {type(e).__name__}: {e} after step {step + 1}"]
         for j, a in enumerate(actors):
             if a.prog and a.state() != refs[j][a.prog]:
                 return [f"solver {j} differs from its solo run after step {step + 1}: "
@@ -406,6 +416,13 @@ def run(ctx):
         tasks += shared("default", dims, ("mono", "quad0"), ["c", "i", "i", "i", "r"])
     for N in (1, 2):
         tasks += shared("problem", (N, N), ("neg", "neg"), ["c", "i", "i", "S", "r"])
+    # local refinement between the global steps (writes into the best trial's value holder): own and shared Problem
+    for N in (1, 2):
+        tasks += shared("problem", (N, N), ("neg", "neg"), ["c", "i", "i", "L", "i", "r"])
+        tasks += shared("own", (N, N), ("neg", "quad0"), ["c", "i", "i", "L", "i", "r"])
+    # two live solvers of different dimensions, both >= 2
+    for dims in ((2, 3), (3, 2), (4, 2)):
+        tasks += shared("own", dims, ("mono", "quad0"), ["c", "i", "i", "S", "r"])
     # same dimension, same box, same objective - only the configured density (or r) differs
     for N in (2, 3):
         for d0, d1 in ((4, 10), (10, 4)):
